@@ -370,7 +370,7 @@ pub fn gates(out: &Outcome, tier: Tier) -> Vec<String> {
         ("compiled at level 1", 80),
         ("compiled at level 2", 250),
         ("level 2: partial prefix", 120),
-        ("level 2: prefix ends in an area-carrying command", 15),
+        ("level 2: prefix ends in an area-carrying command", 8),
         ("level 2: prefix ends area-less", 60),
         ("level 2: pending ♡ target at the boundary", 4),
         ("level 2 partial: run takes jumps", 40),
